@@ -246,7 +246,7 @@ func checkShards(t *testing.T, c ShardsCase) (v harness.Verdict) {
 	var opts []ctfe.CertValidationOpts
 	if why == "" {
 		for i, w := range sh {
-			o, err := windowOpts(w)
+			o, err := windowOpts(w, Policy{})
 			if err != nil {
 				v.Failf("ctfe-valid-window-refused", "ValidateLogConfig refuses the window of shard %d %v: %v", i, w, err)
 				return v
@@ -318,7 +318,7 @@ func checkShards(t *testing.T, c ShardsCase) (v harness.Verdict) {
 			}
 			for i, w := range sh {
 				v.Class("ctfe:validate")
-				admitted := judgeValidate(&v, opts[i], w, s, c.Chain, fmt.Sprintf("shard %d: ", i))
+				admitted := judgeValidate(&v, opts[i], w, s, c.Chain, fmt.Sprintf("shard %d: ", i), Policy{})
 				if admitted != (ridx == i) {
 					v.Failf("route-admission-mismatch", "NotAfter %v: client routes to shard %d, a server with the window of shard %d %v admits=%v", s, ridx, i, w, admitted)
 				}
